@@ -103,6 +103,34 @@ var identChars = "abcdefghijklmnopqrstuvwxyz"
 
 func (g *gen) newName(prefix string, n int) string { return fmt.Sprintf("%s%d", prefix, n) }
 
+// dbBase: most database names are db<n>; some contain the letters whose case
+// mappings are irregular in Unicode.
+func (g *gen) dbBase() string {
+	if g.pf.DBs[1] > 1 && g.r.Chance(0.25) {
+		return []string{"disk", "kiosk", "sink"}[g.r.Intn(3)]
+	}
+	return "db"
+}
+
+// respell writes a database name the way a user might: now and then with a
+// letter that lower-cases (or case-folds) to the plain one - capital I with
+// dot, the Kelvin sign, the long s. The model follows strings.ToLower, as the
+// file paths do.
+func (g *gen) respell(name string) string {
+	if !g.r.Chance(0.12) {
+		return name
+	}
+	subst := [][2]string{{"i", "\u0130"}, {"k", "\u212a"}, {"s", "\u017f"}}
+	p := subst[g.r.Intn(3)]
+	if i := strings.Index(name, p[0]); i >= 0 {
+		return name[:i] + p[1] + name[i+1:]
+	}
+	if g.r.Chance(0.5) {
+		return strings.ToUpper(name)
+	}
+	return name
+}
+
 func (g *gen) genCols() []Col {
 	n := g.r.Range(1, 5)
 	if g.pf.fat && n < 2 {
@@ -1219,13 +1247,13 @@ func (g *gen) genStmts(n int, small bool) []Stmt {
 			// session without a database
 			if len(g.m.Order) == 0 || g.r.Chance(0.3) {
 				g.ndb++
-				nm := g.newName("db", g.ndb)
+				nm := g.newName(g.dbBase(), g.ndb)
 				if g.r.Chance(0.3) {
 					nm = strings.ToUpper(nm[:1]) + nm[1:]
 				}
 				emit(Stmt{Kind: KCreateDB, DB: nm})
 			}
-			emit(Stmt{Kind: KUse, DB: g.m.Order[g.r.Intn(len(g.m.Order))]})
+			emit(Stmt{Kind: KUse, DB: g.respell(g.m.Order[g.r.Intn(len(g.m.Order))])})
 			continue
 		}
 		maxTables := pf.Tables[1]
@@ -1263,11 +1291,11 @@ func (g *gen) genStmts(n int, small bool) []Stmt {
 		case 6:
 			emit(g.stmtFail(db, t))
 		case 7:
-			emit(Stmt{Kind: KUse, DB: g.m.Order[g.r.Intn(len(g.m.Order))]})
+			emit(Stmt{Kind: KUse, DB: g.respell(g.m.Order[g.r.Intn(len(g.m.Order))])})
 		case 8:
 			if len(g.m.Order) < pf.DBs[1] {
 				g.ndb++
-				nm := g.newName("db", g.ndb)
+				nm := g.newName(g.dbBase(), g.ndb)
 				if g.r.Chance(0.3) {
 					nm = strings.ToUpper(nm)
 				}
